@@ -9,6 +9,10 @@ pub const SIGMA1: &[u8] = b"<>/!?-[]'\" a=";
 /// second byte alphabet: name ends at TAB/LF as well as SP, `<?xml` + blank classification
 pub const SIGMA2: &[u8] = b"<>/?xml\t\n '=";
 
+/// third byte alphabet: what is and is not XML whitespace (SP TAB LF CR are; FF, VT, NUL, 0x85, 0xA0 are
+/// character data) around markup — trimming options must treat exactly the first four as blanks
+pub const SIGMA3: &[u8] = b"<>/ \t\n\r\x0c\x0bx\x00\xa0";
+
 /// token alphabet: reaches CDATA / DOCTYPE / declarations, which byte enumeration cannot at
 /// small lengths
 pub const TOKENS: &[&[u8]] = &[
@@ -78,6 +82,7 @@ pub const FRAGMENTS: &[&[u8]] = &[
     b"<a\tk=\"v\">", b"<a\r\n/>", b"<a\nb>", b"</a\r>", b"<?xml\tversion='1.0'?>", b"<?xml\n?>", b"<?xml\r?>", b"<?pi\tx?>", b"<?xmlns?>", b"<a k='>' j=\">\">", b"<a k=\">\" j='>'>", b"<a k='\"' j=\"'\"/>", b"<a k=\"'>'\">",
     b"<![CDATA[]]]>", b"<![CDATA[]>]]>", b"<![CDATA[]]]]]>", b"<![CDATA[>]]]>", b"<!--->-->", b"<!---->-->", b"<!-- -- -->", b"<!--a-b-c-->", b"<?p ? ?>", b"<?p ?>x?>", b"<!DOCTYPE r [<!ELEMENT r (a|<b <c>>)>]>", b"<!DOCTYPE r [<<>><>]>", b"<!DOCTYPE\tr>", b"<!DOCTYPE\nr >",
     b"<!DoCtYpE r>", b"<a/ >", b"<a //>", b"<a/b/>", b"</a/>", b"< a>", b"<a k=v/>",
+    b"\x0c", b"\x0b", b" \x0c", b"\x0c ", b"\n\x0c\n", b"\xc2\xa0", b"\xc2\x85", b"\xe2\x80\xa8", b"\x00", b"\x1f", b"\x85", b"\xa0", b" \xc2\xa0x\xc2\xa0 ", b"<a\x0c>", b"</a\x0c>", b"<a\x0ck='v'/>", b"<?pi\x0cx?>", b"<?xml\x0c?>",
     b"<a:b>", b"</a:b>", b"<a xmlns='u'>", b"<p:a xmlns:p=\"u\">", b"<![", b"<!-", b"<!D", b"<!DOCTYP", b"<![CDATA", b"!", b"/", b"\xEF\xBB\xBF",
 ];
 
